@@ -86,7 +86,7 @@ def get_sim():
 
 
 def alphabet(raw=True):
-    ops = [('boot',), ('complete', 0), ('complete', 1), ('complete', -1), ('dispatch', False), ('dispatch', True), ('reset', 'true'), ('reset', 'false')]
+    ops = [('boot',), ('complete', 0), ('complete', 1), ('complete', -1), ('poll',), ('dispatch', False), ('dispatch', True), ('reset', 'true'), ('reset', 'false')]
     for p in ('now', 'crew_idle', 'doing_empty', 'todo_empty'):
         ops.append(('submit', p, True, False))
     ops.append(('submit', 'now', False, False))
@@ -102,7 +102,8 @@ class Run:
     def __init__(self, sim, res):
         self.sim, self.res = sim, res
         self.fsm = sim.new_fsm()
-        sim.world.fresh_db(['T']) if False else None
+        # the submit waiters poll cooperatively (one call = one round of their loop), see fsmsim
+        fsmsim.install_pollers(sim)
         self.bad = []
         self.legit = True
         self.nontrivial = False
@@ -139,6 +140,15 @@ class Run:
 
                 if isinstance(p.result, Failure):
                     exc = p.result.value
+            elif kind == 'poll':
+                live = [p for p in sim.pollers if not p.delivered]
+                if not live:
+                    return 'skip'
+                for p in live:
+                    p.tick()
+                for p in [p for p in live if p.finished]:
+                    p.deliver()
+                sim.drain_reactor()
             elif kind == 'dispatch':
                 if not self.booted:
                     return 'skip'
@@ -209,10 +219,14 @@ class Run:
         sim, fsm = self.sim, self.fsm
         if not self.booted or self.bad:
             return
-        for _ in range(40):
-            if not sim.rx.parked:
+        for _ in range(60):
+            live = [p for p in sim.pollers if not p.delivered]
+            if not sim.rx.parked and not live:
                 break
-            self.apply(('complete', 0))
+            if sim.rx.parked:
+                self.apply(('complete', 0))
+            else:
+                self.apply(('poll',))
             if self.bad:
                 return
         if sim.rx.parked:
@@ -288,7 +302,7 @@ def run_random(spec, res, sim):
     while res.elapsed() < spec['budget']:
         raw = rng.random() < 0.5
         ops = alphabet(raw=raw)
-        weights = [6 if o[0] == 'complete' else (3 if o[0] == 'submit' else 1) for o in ops]
+        weights = [6 if o[0] == 'complete' else (3 if o[0] in ('submit', 'poll') else 1) for o in ops]
         seq = [['boot']] + [list(rng.choices(ops, weights)[0]) for _ in range(rng.choice([6, 10, 16, 30]))]
         r, _key = run_sequence(sim, seq, res)
         n += 1
